@@ -21,6 +21,7 @@ type fieldWriteSite struct {
 	value ast.Expr
 	node  ast.Node
 	block ast.Node // innermost enclosing block / composite literal (grouping)
+	sub   string   // name of the component when the field is written through (dst.Id.Reply = …)
 }
 
 // fieldWriteSites lists composite-literal keys and assignments that write fields of the named struct type inside root.
@@ -73,7 +74,7 @@ func fieldWriteSites(info *types.Info, root ast.Node, owner *types.Named) []fiel
 							// dst.Id.Reply = … also fills dst.Id
 							if fo := astx.FieldSel(info, in); fo != nil {
 								if tv, ok := info.Types[in.X]; ok && isOwner(tv.Type) {
-									out = append(out, fieldWriteSite{field: fo, value: x.Rhs[i], node: x, block: blk})
+									out = append(out, fieldWriteSite{field: fo, value: x.Rhs[i], node: x, block: blk, sub: f.Name()})
 								}
 							}
 						}
@@ -173,6 +174,47 @@ func (c *Ctx) checkCopy(rule string, fi *load.FuncInfo, root ast.Node, dst, src 
 		if subsetOK {
 			continue
 		}
+		// a struct-valued field that is filled component by component gets every (exported) component
+		subs := map[string]map[string]bool{}
+		whole := map[string]bool{}
+		ftype := map[string]*types.Var{}
+		for _, s := range g {
+			ftype[s.field.Name()] = s.field
+			if s.sub == "" {
+				whole[s.field.Name()] = true
+				continue
+			}
+			if subs[s.field.Name()] == nil {
+				subs[s.field.Name()] = map[string]bool{}
+			}
+			subs[s.field.Name()][s.sub] = true
+		}
+		var fnames []string
+		for fn := range subs {
+			fnames = append(fnames, fn)
+		}
+		sort.Strings(fnames)
+		for _, fn := range fnames {
+			if whole[fn] {
+				continue
+			}
+			t := ftype[fn].Type()
+			if p, ok := t.(*types.Pointer); ok {
+				t = p.Elem()
+			}
+			st, ok := t.Underlying().(*types.Struct)
+			if !ok {
+				continue
+			}
+			for i := 0; i < st.NumFields(); i++ {
+				cf := st.Field(i)
+				if !cf.Exported() {
+					continue
+				}
+				r.Check(subs[fn][cf.Name()], rule, fi.Name(), "copies component "+fn+"."+cf.Name()+" into "+dst.Obj().Name(), pos, "every component of the identifier is assigned in the same block",
+					"the copy fills "+fn+" component by component but leaves out "+cf.Name()+": with a re-used destination it keeps the previous entry's value, otherwise it is zero — ids lose their Reply part or messages are attributed to session 0")
+			}
+		}
 		// one obligation per field as well (so that a property which depends on one field can borrow just that one)
 		miss := map[string]bool{}
 		for _, m := range missing {
@@ -200,7 +242,7 @@ func (c *Ctx) checkCopy(rule string, fi *load.FuncInfo, root ast.Node, dst, src 
 func c18(c *Ctx) {
 	r := c.R
 	r.Explanation = "Structural completeness and agreement of the hand-written codecs (same kind of claim as C03). (F1) robust.Message <-> pb.RobustMessage: ProtoMessage, CopyToProtoMessage and the protobuf branch of NewMessageFromBytes each copy every field (except the json:\"-\" recipient set) from the like-named field, the enum values agree, and the id defaults to the raft index only under the zero test; (F2) raft.Log <-> pb.RaftLog: every encoder and decoder copy in the module (Apply, StoreLogs, ConvertToProto x2, GetLog, raftlog.FromBytes, Snapshot, canary, log dump) copies all six fields from the like-named field with the matching conversion; (F3) framing: every protobuf value written gets the one-byte 'p' marker that every reader strips ([1:]); (F4) the output-store batch codec: the writer's and the reader's scripts (ordered items, widths, byte order, loops, cursor increments) are equal and the size pre-computation sums the same items. Value-level round-trip equality for all inputs is not decided."
-	r.Rules = []string{"C18.F1 robust.Message codec", "C18.F2 raft.Log codec copies", "C18.F3 framing agreement", "C18.F4 output batch codec symmetry", "C18.F5 textual ids"}
+	r.Rules = []string{"C18.F1 robust.Message codec", "C18.F2 raft.Log codec copies", "C18.F3 framing agreement", "C18.F4 output batch codec symmetry", "C18.F5 textual ids", "C18.F6 error discipline of the message codec"}
 
 	goMsg := c.P.Named("robust", "Message")
 	goID := c.P.Named("robust", "Id")
@@ -406,6 +448,19 @@ func c18(c *Ctx) {
 		r.Check(n >= 5, "C18.F1", "module", "decoder call sites enumerated", "-", itoa(n), "fewer NewMessageFromBytes call sites than expected")
 	}
 
+	c.errorDispositions("C18.F6", []string{"robust"}, nil, "bytes that do not decode are taken for a message")
+	// ---------- F6: error discipline of the message codec
+	{
+		nErr := 0
+		for _, fi := range c.P.FuncsIn("robust") {
+			if fi.Body() != nil {
+				nErr += c.errorDiscipline("C18.F6", fi, "bytes that do not decode are taken for a message")
+			}
+		}
+		if nErr < 2 {
+			r.Break("C18.F6: only %d error definitions found in package robust", nErr)
+		}
+	}
 	// ---------- F2: every function that copies between raft.Log and pb.RaftLog
 	logFields := []string{"Index", "Term", "Type", "Data", "Extensions", "AppendedAt"}
 	nEnc, nDec := 0, 0
